@@ -34,8 +34,9 @@ func (w *world) overwrite(buf *Buf, culprit string) []byte {
 	} else {
 		y[i] ^= x
 	}
+	tg := &target{culprit: culprit, kind: "input", buf: buf, seq: seq, fired: true, dataOnly: true}
+	w.targets = append(w.targets, tg) // in both worlds: the list bounds the number of flips of a run
 	if w.faulted {
-		tg := &target{culprit: culprit, kind: "input", buf: buf, seq: seq, fired: true, dataOnly: true}
 		poke := func() {
 			if whole {
 				for j := 0; j < n; j++ {
@@ -47,7 +48,6 @@ func (w *world) overwrite(buf *Buf, culprit string) []byte {
 		}
 		poke()
 		tg.undo = poke
-		w.targets = append(w.targets, tg)
 		w.flips["flip-input"]++
 		if whole {
 			w.flips["flip-whole"]++
